@@ -221,3 +221,13 @@ Theorem C03_awake_flag_values :
   /\ (forall f, has_notified (fl_wake f) = true).
 Proof. exact awake_flag_values. Qed.
 Print Assumptions C03_awake_flag_values.
+
+(* the condition under which io_uring's poll_entries sets NEED_PUSH_NOTIFIER (translated from
+   compio-driver/src/sys/driver/iour/mod.rs) is the model's: exactly the NOTIFY completion
+   without MORE (the kernel ended the multishot poll, e.g. after a completion-queue overflow)
+   makes the driver arm the notifier again; every NOTIFY completion clears the eventfd *)
+Theorem C03_notifier_rearm_is_source : forall more a,
+  need_push (apply_cqe (notify_cqe more) a) = (Frag.iour_notify_rearm more || need_push a)%bool
+  /\ efd (apply_cqe (notify_cqe more) a) = 0.
+Proof. exact notify_rearm_tie. Qed.
+Print Assumptions C03_notifier_rearm_is_source.
